@@ -27,9 +27,9 @@ Init == l = 1 /\ m = IF Len(Rec) >= 1 THEN Load(1) ELSE [st |-> "none"]
 (* domain, a one-character string it does not name) constrain only the kind                                                *)
 RECURSIVE ValMatches(_, _)
 ValMatches(mv, ov) ==
-  CASE mv.t = "str1" -> ov.t = "str" /\ Len(ov.s) = 1
+  CASE mv.t = "str1" -> ov.t = "str1" \/ (ov.t = "str" /\ Len(ov.s) = 1)
     [] mv.t = "num" /\ mv.c = "inexact" -> ov.t = "num"
-    [] mv.t = "num" -> ov.t = "num" /\ ov.c = mv.c /\ (mv.c = "fin" => ov.n = mv.n) /\ (mv.c \in {"big", "tiny"} => ov.s = mv.s /\ ov.d = mv.d)
+    [] mv.t = "num" -> ov.t = "num" /\ ov.c = mv.c /\ (mv.c = "fin" => ov.n = mv.n) /\ (mv.c \in {"big", "tiny", "dec"} => ov.s = mv.s /\ ov.d = mv.d)
     [] mv.t = "arr" -> /\ ov.t = "arr" /\ Len(ov.a) = Len(mv.a) /\ Len(ov.d) = Len(mv.d)
                        /\ \A i \in 1..Len(mv.a) : ValMatches(mv.a[i], ov.a[i])
                        /\ \A i \in 1..Len(mv.d) : mv.d[i].k = ov.d[i].k /\ ValMatches(mv.d[i].v, ov.d[i].v)
